@@ -28,7 +28,7 @@ CLAIMED = {
    technique="TLA+ spec Dnssec.tla (chain of trust, validation pipeline as actions, one tampering <position,kind>) model-checked exhaustively with TLC (TruthOrServfail, NeverAlteredData, ADImpliesSecure, InsecureOnlyByProof, NoAnchorFailsClosed, ServfailHasEDE, termination); TLC-drawn cases concretised with real keys/signatures in scripted loopback authorities (authkit) and resolved by the real edns+cache+resolver chain, replies judged against the zones' ground truth",
    text="The model enumerates 5 zone kinds x 6 question kinds x 26 tamperings x 8 client flag sets x anchor present/absent (12,480 cases) and proves the pipeline admits only SERVFAIL-or-truth, AD only on a fully secure path toward a client that asked, insecure only by proof, fail-closed without anchors. The replay runs a seeded sample of those cases (all in thorough) end to end, twice each so the second reply comes from the caches the first filled.",
    design_ref="2.13",
-   note="One tampering per case (pairs not yet); single-server zones, so an effective tampering leaves SERVFAIL as the only legal outcome; ECDSA P-256 keys (algorithm coverage is C14's subject); data tampering inside provably-insecure zones is out of the statement's scope."),
+   note="One or two tamperings per case (pairs at two different positions); single-server zones, so an effective tampering leaves SERVFAIL as the only legal outcome; ECDSA P-256 keys (algorithm coverage is C14's subject); data tampering inside provably-insecure zones is out of the statement's scope."),
 }
 
 NOT_YET = {}
